@@ -108,14 +108,76 @@ func pqImpl(line string) string {
 				return "short", false
 			}
 			return fmt.Sprintf("ok:%d", v), false
-		case f[0] == "w" && len(f) == 3:
+		case (f[0] == "w" || f[0] == "ws" || f[0] == "wy") && len(f) == 3:
 			ps := atoi(f[1])
 			d := unhx(f[2])
 			if len(d) > 0 && (ps < 9 || ps > 65535) {
 				return "unsupported", true
 			}
 			psize = ps
-			q.WriteBytes(d)
+			switch f[0] {
+			case "ws": // the string method: the same bytes, whatever they spell
+				q.WriteString(string(d))
+			case "wy": // the io.Writer method
+				if n, err := q.Write(d); err != nil || n != len(d) {
+					return "short-write", true
+				}
+			default:
+				q.WriteBytes(d)
+			}
+			return "ok", false
+		case f[0] == "st" && len(f) == 2:
+			str, err := q.String(atoi(f[1]))
+			if err != nil {
+				return "short", false
+			}
+			return "ok:" + hx([]byte(str)), false
+		case f[0] == "i" && len(f) == 2:
+			var v uint64
+			var err error
+			switch atoi(f[1]) {
+			case 1:
+				var x int8
+				x, err = q.Int8()
+				v = uint64(uint8(x))
+			case 2:
+				var x int16
+				x, err = q.Int16()
+				v = uint64(uint16(x))
+			case 4:
+				var x int32
+				x, err = q.Int32()
+				v = uint64(uint32(x))
+			case 8:
+				var x int64
+				x, err = q.Int64()
+				v = uint64(x)
+			default:
+				return "bad-op", true
+			}
+			if err != nil {
+				return "short", false
+			}
+			return fmt.Sprintf("ok:%d", v), false
+		case f[0] == "wi" && len(f) == 4:
+			ps := atoi(f[1])
+			if ps < 9 || ps > 65535 {
+				return "unsupported", true
+			}
+			psize = ps
+			v, _ := strconv.ParseUint(f[3], 10, 64)
+			switch atoi(f[2]) {
+			case 1:
+				q.WriteInt8(int8(v))
+			case 2:
+				q.WriteInt16(int16(v))
+			case 4:
+				q.WriteInt32(int32(v))
+			case 8:
+				q.WriteInt64(int64(v))
+			default:
+				return "bad-op", true
+			}
 			return "ok", false
 		case f[0] == "wu" && len(f) == 4:
 			ps := atoi(f[1])
@@ -234,6 +296,15 @@ func pqOracle(line, out string) string {
 			hl = append(hl, b)
 		}
 		return
+	}
+	// the method variants are the same operation to the specification
+	ops = append([]string{}, ops...)
+	for i, op := range ops {
+		for _, al := range [][2]string{{"ws:", "w:"}, {"wy:", "w:"}, {"wi:", "wu:"}, {"st:", "b:"}, {"i:", "u:"}} {
+			if strings.HasPrefix(op, al[0]) {
+				ops[i] = al[1] + strings.TrimPrefix(op, al[0])
+			}
+		}
 	}
 	switch mode {
 	case "R":
@@ -455,7 +526,7 @@ func genReader(rng *rand.Rand, nops int) string {
 					n = left - 1
 				}
 			}
-			kind := []string{"b", "b", "rd"}[rng.Intn(3)]
+			kind := []string{"b", "b", "rd", "st"}[rng.Intn(4)]
 			if n == 0 && kind == "rd" {
 				kind = "b"
 			}
@@ -467,7 +538,7 @@ func genReader(rng *rand.Rand, nops int) string {
 			}
 		case x < 14:
 			w := []int{1, 2, 4, 8}[rng.Intn(4)]
-			ops = append(ops, fmt.Sprintf("u:%d", w))
+			ops = append(ops, fmt.Sprintf("%s:%d", []string{"u", "u", "i"}[rng.Intn(3)], w))
 			if pos+w <= avail {
 				pos += w
 			} else {
@@ -521,14 +592,21 @@ func genWriter(rng *rand.Rand, nops int, sizes []int) string {
 			if n > 1400 {
 				n = 1400
 			}
-			ops = append(ops, fmt.Sprintf("w:%d:%s", ps, hx(rndBytes(rng, n))))
+			data := rndBytes(rng, n)
+			meth := []string{"w", "w", "ws", "wy"}[rng.Intn(4)]
+			if meth == "ws" && rng.Intn(2) == 0 {
+				// text with multi-byte characters (two, three and four bytes each), cut to the length wanted
+				t := []byte(strings.Repeat("aß€日𝄞z", n/12+1))
+				data = t[:n]
+			}
+			ops = append(ops, fmt.Sprintf("%s:%d:%s", meth, ps, hx(data)))
 		case x < 8:
 			w := []int{1, 2, 4, 8}[rng.Intn(4)]
 			v := rng.Uint64()
 			if w < 8 {
 				v &= (1 << (8 * uint(w))) - 1
 			}
-			ops = append(ops, fmt.Sprintf("wu:%d:%d:%d", ps, w, v))
+			ops = append(ops, fmt.Sprintf("%s:%d:%d:%d", []string{"wu", "wu", "wi"}[rng.Intn(3)], ps, w, v))
 		case x < 9:
 			ops = append(ops, "dump")
 		default:
